@@ -247,20 +247,33 @@ class CHECK(core.Check):
     RULE = ("kind=exen: Framer.ExEn on all pairs of lists over 3 frame ids up to length 2 (quick) / 4 (thorough) "
             "x every target, plus random pairs; kind=forest: random frame forests (<= 8 frames, declared over/unders "
             "names incl. primary-under overrides, cross links, duplicates, undeclared names, loops) resolved by the real "
-            "Framer.resolve, then ExEn queries with nears = outline / head / prefix / random list. Non-trivial = the "
-            "forest resolves and some query has non-empty exits or enters (exen: non-empty result); distinct by content")
-    TRUSTED = ["correspondence: Framer.ExEn (staticmethod), Frame.resolveOverLinks/resolveUnderLinks/traceOutline/"
-               "traceHead of the working tree run in-process on the same declarations as the Lean model (engine 'outline')",
-               "frames are built by calling framing.Frame/Framer directly with the `over`/`unders` name strings the "
-               "builder would leave (the builder's own token handling is C14-C16 territory)"]
-    PARTIAL = []
+            "Framer.resolve, then ExEn queries with nears = outline / head / prefix / random list; kind=flo (45 % of the "
+            "generated cases): FloScript programs (floeng.gen_susp / gen_program) with recorder deeds in all six contexts "
+            "of every frame, run 4-14 ticks by the real Builder/Skedder. Non-trivial = the forest resolves and some query "
+            "has non-empty exits or enters (exen: non-empty result; flo: a transition, auxiliary entry or stop happens); "
+            "distinct by content")
+    TRUSTED = ["correspondence (pure part): Framer.ExEn (staticmethod), Frame.resolveOverLinks/resolveUnderLinks/traceOutline/"
+               "traceHead of the working tree run in-process on the same declarations as the Lean model (engine 'outline'); "
+               "frames are built by calling framing.Frame/Framer directly with the `over`/`unders` name strings the builder "
+               "would leave",
+               "correspondence (trace part): recorder events and per-tick status/active/actives of every framer from the real "
+               "Builder + Skedder vs the Lean interpreter (engine 'flo')",
+               "oracle (trace part): bracketing, entered set = full outlines of the active framers at every tick boundary, "
+               "order/extent of exits, rexits, renters, enters of every run of a scheduled framer, computed from the "
+               "implementation's own events with outlines recomputed by harness code"]
+    PARTIAL = ["trace part: the order of a taken transition is proved on the model (C07_transit_taken / "
+               "C08_transit_enters_checked_list); the invariants `enter/exit alternate` and `entered = outlines of the active "
+               "framers` are NOT proved in Lean yet — they are checked by the trace oracle on every generated run and the "
+               "model carries the ghost map `ent` and the flags `dbl`, `left` for them; they are false of the code in the "
+               "regions of the known findings D3c (left = 1) and D3d (shared auxiliaries)"]
     TECHNIQUE = ("Lean 4 theorems (structural induction over the two outlines; least-index characterisation) + "
-                 "differential correspondence against the real staticmethod and the real link resolution")
+                 "differential correspondence against the real staticmethod, the real link resolution and full event traces")
     LEVEL_TEXT = ("Pure part, full proof on the model for all pairs of lists: C06_exen_split (ExEn cuts both outlines at the "
                   "least index where they differ or the target appears, else returns ([],[],nears)), C06_exen_exits_suffix, "
-                  "C06_exen_common_prefix, C06_exen_enters_nonempty_iff, C06_exen_target_reentered, C06_exen_first_differs.")
-    LEVEL_NOTE = ("Trusted: Lean kernel; axioms propext, Classical.choice, Quot.sound; the transcription of Framer.ExEn and "
-                  "of the link resolution / outline tracing, validated by the correspondence runs only.")
+                  "C06_exen_common_prefix, C06_exen_enters_nonempty_iff, C06_exen_target_reentered, C06_exen_first_differs. "
+                  "Trace part: correspondence + trace oracle only (see partial).")
+    LEVEL_NOTE = ("Trusted: Lean kernel; axioms propext, Classical.choice, Quot.sound; the transcription of Framer.ExEn, of "
+                  "the link resolution / outline tracing and of the framer core, validated by the correspondence runs only.")
 
     # ------------------------------------------------------------------ cases
     def exhaustive(self, tier):
